@@ -116,3 +116,12 @@ TABLE['C13'] = {
     'assumptions': ['a world handle loads World instances', 'callbacks released when the entered world is enabled do not touch the loop'],
     'explanation': 'Contracts of Loop.switch / SimpleLoop.switch over the Handle contract and the ghost load counter: the loop enters exactly the instance the handle holds, a cached uncleared target is not reloaded, a cleared one is loaded exactly once.',
 }
+
+TABLE['C19'] = {
+    'modules': ['logic_spec'], 'replay': 'logic_replay', 'level': 'other',
+    'bounded_hook': 'pyvc.bounded_native',
+    'bound': 'Prototype.__iter__: every combination, for three listed types, of (entry in init_methods) x (method init_prefix+name defined), with the default and a custom prefix, a method carrying the other prefix always present, the prototype class and a subclass of it, two iterations each (2 x 4^3 x 2 recipes); twin worlds: all sequences of 3 operations out of 15 shorthand / reference operations compared with the World call on a twin world',
+    'trusted_base': T_STATE,
+    'assumptions': ['owners of references implement ControllerProtocol (world, entity attributes)'],
+    'explanation': 'Delegation obligations (discharged deductively): every shorthand / descriptor method performs, on every path, exactly one call of the corresponding World method with (controller.world, controller.entity, ...) as arguments, hence has that contract instance as its effect; Controller.on_add, controller(), OnUpdateProcessor.process likewise. Prototype.__iter__ (a lazy generator expression with dynamic getattr on an f-string name) is outside the verifier subset: its three-way choice is checked by the BOUNDED native stand-in only, not proved.',
+}
